@@ -42,10 +42,10 @@ B2Slots == IF Level = "medium" THEN {"0", "2"} ELSE {"0"}
 
 TargetChoices ==
   {<<A("a", "any", 0, "none")>>,
-   <<A("b", "<", 2, "none"), A("a", "any", 0, "none")>>,
-   <<A("a", "=", 1, "none")>>}
+   <<A("b", "<", 2, "none"), A("a", "any", 0, "none")>>}
   \cup (IF Level = "tiny" THEN {}
-        ELSE {<<A("b", "any", 0, "none")>>, <<A("a", "any", 0, "none"), A("b", "any", 0, "none")>>})
+        ELSE {<<A("a", "=", 1, "none")>>, <<A("b", "any", 0, "none")>>,
+              <<A("a", "any", 0, "none"), A("b", "any", 0, "none")>>})
 
 \* [pkgs |-> sequence of JSON packages, targets |-> sequence of JSON atoms]
 Family ==
